@@ -176,6 +176,38 @@ Definition parse_nmap_target_spec (target_spec : string) : gen (Z * Z) :=
           (flat_map (fun w => flat_map (fun x => flat_map (fun y => map (fun z => quad_address w x y z) r3) r2) r1) r0)
     end.
 
+(* The '/' branch of _parse_nmap_target_spec up to the bounds of the block, and a probe that observes a CIDR target of any
+   size without running the generator to exhaustion: the validity flag and the first three addresses (islice) *)
+Definition parse_cidr_spec (target_spec : string) : outcome (Z * Z) :=
+  match split1 ch_slash target_spec with
+  | [_; prefix] =>
+      match py_int 10 prefix with
+      | None => Raise ValueError
+      | Some p =>
+          if negb ((0 <? p) && (p <? 33)) then Raise AddrFormatError
+          else match ipnetwork_of_str target_spec with
+               | Raise e => Raise e
+               | Ok (ver, v, pl) =>
+                   if negb (ver =? 4) then Raise AddrFormatError else Ok (net_first 32 v pl, net_last 32 v pl)
+               end
+      end
+  | _ => Raise ValueError
+  end.
+
+Definition cidr_probe (target_spec : string) : gen (Z * Z) :=
+  match parse_cidr_spec target_spec with
+  | Ok (f, l) => (map (fun x => (4, x)) (py_range f (Z.min (f + 3) (l + 1))), None)
+  | Raise e => ([], Some e)
+  end.
+
+Definition valid_of_gen (g : gen (Z * Z)) : outcome bool :=
+  match g with
+  | (_ :: _, _) => Ok true
+  | ([], Some TypeError) | ([], Some ValueError) | ([], Some AddrFormatError) => Ok false
+  | ([], Some e) => Raise e
+  | ([], None) => Raise Unsupported
+  end.
+
 (* valid_nmap_range(target_spec): one next() on the generator *)
 Definition valid_nmap_range (target_spec : string) : outcome bool :=
   match parse_nmap_target_spec target_spec with
